@@ -8,5 +8,9 @@ audit = subprocess.run([sys.executable, os.path.join(HERE, "tools", "audit_table
 seeds = subprocess.run([sys.executable, os.path.join(HERE, "tools", "seed_notes.py"), "--table"], capture_output=True, text=True).stdout
 s = re.sub(r"(?s)<!-- AUDIT-TABLE-BEGIN -->.*?<!-- AUDIT-TABLE-END -->", lambda m: "<!-- AUDIT-TABLE-BEGIN -->\n" + audit + "<!-- AUDIT-TABLE-END -->", s)
 s = re.sub(r"(?s)<!-- SEED-TABLE-BEGIN -->.*?<!-- SEED-TABLE-END -->", lambda m: "<!-- SEED-TABLE-BEGIN -->\n" + seeds + "<!-- SEED-TABLE-END -->", s)
+floors = subprocess.run(["/venv/bin/python", os.path.join(HERE, "tools", "floors_table.py")], capture_output=True, text=True,
+                        env=dict(os.environ, PYTHONPATH=HERE)).stdout
+if floors.strip():
+    s = re.sub(r"(?s)<!-- FLOORS-BEGIN -->.*?<!-- FLOORS-END -->", lambda m: "<!-- FLOORS-BEGIN -->\n" + floors + "<!-- FLOORS-END -->", s)
 open(p, "w").write(s)
 print("DESIGN.md tables updated")
